@@ -129,6 +129,7 @@ type FuncGen struct {
 	sentGhost   bool
 	copyOut     *[]func()
 	closureBindings map[string]sval
+	visitedOf   map[*ssa.Range]string
 	retStates   int
 }
 
@@ -738,6 +739,33 @@ func (g *FuncGen) run() {
 	}
 	g.entry = g.st.clone()
 
+	// ghost assignments executed inside loops modify their target components there
+	if g.c != nil {
+		for _, gs := range g.c.Ghost {
+			var n int
+			if _, err := fmt.Sscanf(gs.At, "loop %d", &n); err != nil {
+				continue
+			}
+			tgt := gs.Target
+			if ix, ok := tgt.(*EIndex); ok {
+				tgt = ix.X
+			}
+			lcx := g.newSpecCtx(g.st, g.entry)
+			for _, loc := range lcx.locations(tgt) {
+				for _, l := range g.loops {
+					if l.ordinal == n {
+						l.modified[loc.comp] = true
+						for _, outer := range g.loops {
+							if outer != l && outer.body[l.header.Index] {
+								outer.modified[loc.comp] = true
+							}
+						}
+					}
+				}
+			}
+		}
+	}
+
 	for _, b := range g.order {
 		g.execBlock(b)
 	}
@@ -1080,12 +1108,26 @@ func (g *FuncGen) loopFrameInvariants(l *loopInfo, cx *SpecCtx) []frameInv {
 func (g *FuncGen) backEdge(from *ssa.BasicBlock, l *loopInfo, edgeCond string) {
 	saveGuard := g.guard
 	g.guard = edgeCond
+	if l.spec != nil {
+		// vacuity guard: the end of the loop body must be reachable under the invariants
+		ob := g.oblig("cover", fmt.Sprintf("loop%d-body-reachable-from-%d", l.ordinal, from.Index), "false", l.header.Instrs[0].Pos(), nil, "the loop body must be reachable (invariants not contradictory)")
+		if ob != nil {
+			ob.Cover = true
+		}
+	}
 	if l.spec == nil && g.c != nil {
 		cx := g.newSpecCtx(g.st, g.entry)
 		cx.pre = l.pre
 		for _, f := range g.loopFrameInvariants(l, cx) {
 			g.oblig("loop-frame", fmt.Sprintf("loop%d:%s", l.ordinal, strings.TrimPrefix(f.src, "function frame ")), f.expr, l.header.Instrs[0].Pos(), nil, f.src)
 		}
+	}
+	if l.spec != nil && g.c != nil {
+		gcx := g.newSpecCtx(g.st, g.entry)
+		gcx.pre = l.pre
+		gcx.locals = true
+		gcx.at = l.header
+		g.execGhost(fmt.Sprintf("loop %d", l.ordinal), gcx)
 	}
 	if l.spec != nil {
 		cx := g.newSpecCtx(g.st, g.entry)
